@@ -812,7 +812,7 @@ func work(ctx *runner.Ctx) {
 		if !ctx.Mine(i) {
 			continue
 		}
-		if i&0x3ff == 0 && ctx.Expired() {
+		if ctx.Expired() {
 			return
 		}
 		runCase(ctx, k)
